@@ -3,5 +3,5 @@
 set -e
 cd "$(dirname "$0")/.."
 export CARGO_NET_OFFLINE=true
-(cd harness && cargo build --release --offline -q)
+(cd harness && cargo build --release --offline -q 2>/dev/null || cargo build --release --offline -q)
 python3 tools/selftest.py
